@@ -63,6 +63,8 @@ pub enum Res {
     Panic(String),
     /// the harness aborted the call (event cap = hang)
     Abort(String),
+    /// the simulated user's callback unwound on purpose (fault injection) and the caller caught it
+    UserPanic,
 }
 impl Res {
     pub fn short(&self) -> String {
@@ -73,6 +75,7 @@ impl Res {
             Res::Err(e) => format!("Err({})", e.name()),
             Res::Panic(m) => format!("PANIC({m})"),
             Res::Abort(m) => format!("ABORT({m})"),
+            Res::UserPanic => "the user's callback unwound (injected)".into(),
         }
     }
 }
@@ -120,6 +123,8 @@ impl Ev {
 // Thread-local simulation context
 
 pub struct Abort(pub String);
+/// payload of an injected user-callback panic
+pub struct UserPanic;
 
 struct Ctx {
     log: Vec<Ev>,
@@ -130,6 +135,7 @@ struct Ctx {
     su_calls: u64,
     v_calls: u64,
     v_fault: Vec<u64>,
+    v_panic: Vec<u64>,
     sg_calls: u64,
     su_fault: Vec<u64>,
     sg_fault: Vec<u64>,
@@ -536,8 +542,16 @@ impl<R: Raw> StateValidityChecker<R::StateType> for SimChecker<R> {
             if f {
                 c.faults_fired += 1;
             }
-            f
+            let boom = c.v_panic.contains(&c.v_calls);
+            if boom {
+                c.faults_fired += 1;
+            }
+            (f, boom)
         });
+        let (flip, boom) = flip;
+        if boom {
+            std::panic::panic_any(UserPanic);
+        }
         let ans = !flip && self.world.valid(&self.inner, s);
         seam_event(Ev::Valid(enc_of::<R>(s), ans));
         ans
@@ -745,7 +759,7 @@ impl Default for RunOpts {
 
 pub fn install_panic_hook() {
     std::panic::set_hook(Box::new(|info| {
-        if info.payload().downcast_ref::<Abort>().is_some() {
+        if info.payload().downcast_ref::<Abort>().is_some() || info.payload().downcast_ref::<UserPanic>().is_some() {
             return;
         }
         let msg = if let Some(s) = info.payload().downcast_ref::<&str>() {
@@ -772,6 +786,8 @@ fn guarded<T>(f: impl FnOnce() -> T) -> Result<T, Res> {
         Err(payload) => {
             if let Some(a) = payload.downcast_ref::<Abort>() {
                 Err(Res::Abort(a.0.clone()))
+            } else if payload.downcast_ref::<UserPanic>().is_some() {
+                Err(Res::UserPanic)
             } else {
                 let m = LAST_PANIC.with(|p| p.borrow_mut().take()).unwrap_or_else(|| "<unknown panic>".into());
                 // strip absolute path prefixes so signatures are stable
@@ -804,11 +820,13 @@ fn run_typed<R: Raw>(scn: &Scenario, opts: &RunOpts) -> Outcome {
     let mut su_fault = vec![];
     let mut sg_fault = vec![];
     let mut v_fault = vec![];
+    let mut v_panic = vec![];
     for f in &scn.faults {
         match f {
             FaultSpec::UniformSamplerErr { at_call } => su_fault.push(*at_call),
             FaultSpec::GoalSamplerErr { at_call } => sg_fault.push(*at_call),
             FaultSpec::ValidityFalseAt { at_call } => v_fault.push(*at_call),
+            FaultSpec::ValidityPanicAt { at_call } => v_panic.push(*at_call),
         }
     }
     CTX.with(|c| {
@@ -823,6 +841,7 @@ fn run_typed<R: Raw>(scn: &Scenario, opts: &RunOpts) -> Outcome {
             su_fault,
             sg_fault,
             v_fault,
+            v_panic,
             v_calls: 0,
             harness_goal_draws: 0,
             n_phase: [0; 3],
@@ -1017,6 +1036,15 @@ fn run_typed<R: Raw>(scn: &Scenario, opts: &RunOpts) -> Outcome {
         };
         if matches!(res, Res::Panic(_) | Res::Abort(_)) {
             dead = true;
+        }
+        // An injected user panic was caught by the caller, who goes on using the planner — but only
+        // where that does not make the run depend on OS entropy (the interrupted call had taken
+        // the seeded generator): a PRM whose roadmap is still empty would sample again.
+        if matches!(res, Res::UserPanic) {
+            let keep = matches!(&planner, AnyPlanner::Prm(_)) && matches!(guarded(|| planner.snapshot()), Ok(Snap::Prm(ref rm)) if !rm.is_empty());
+            if !keep {
+                dead = true;
+            }
         }
         let t_end = oxmpl::verif::now_ns().unwrap_or(0);
         let ev_hi = CTX.with(|c| {
